@@ -4,6 +4,7 @@ package mqtt
 
 import (
 	"context"
+	"errors"
 	"time"
 )
 
@@ -93,6 +94,10 @@ func VerifH_SYS_C16() {
 				}
 				if !disconnect {
 					verifAssert(len(b.conns) > ci+1, "C13.redial_after_ping_timeout")
+				}
+				// the error that ended this connection — reported by Err() and with the Closed callback — is the ping timeout
+				if ci != discOn {
+					verifAssert(errors.Is(b.clients[ci].Err(), ErrPingTimeout), "C16.err_is_the_cause_ping_timeout")
 				}
 			}
 		}
